@@ -326,6 +326,16 @@ pub fn len_class(n: usize) -> String {
     }
 }
 
+thread_local! {
+    /// largest Argon2 memory exponent the S2K generator emits (21 = rPGP's documented 2 GiB ceiling);
+    /// checks that *execute* the derivation lower it for the thread that runs the case
+    static ARGON2_M_MAX: std::cell::Cell<usize> = const { std::cell::Cell::new(21) };
+}
+
+pub fn set_argon2_m_max(m: usize) {
+    ARGON2_M_MAX.with(|c| c.set(m.clamp(8, 21)));
+}
+
 /// S2K specifier
 pub fn s2k(t: &mut Tape) -> Vec<u8> {
     match t.below(6) {
@@ -344,7 +354,8 @@ pub fn s2k(t: &mut Tape) -> Vec<u8> {
         4 => {
             let mut v = vec![4];
             v.extend_from_slice(&rand_bytes(t, 16));
-            v.extend_from_slice(&[t.range(1, 4) as u8, t.range(1, 4) as u8, t.range(8, 21) as u8]);
+            let m_max = ARGON2_M_MAX.with(|c| c.get());
+            v.extend_from_slice(&[t.range(1, 4) as u8, t.range(1, 4) as u8, t.range(8, m_max) as u8]);
             v
         }
         _ => {
